@@ -1,5 +1,5 @@
 (** C07 — executable model of the selection configurations and of the protocol-level [select]:
-    pybrops/breed/prot/sel/cfg/{Subset,Real,Integer,Binary,SubsetMate,IntegerMate}SelectionConfiguration.sample_xconfig,
+    pybrops/breed/prot/sel/cfg/{Subset,Real,Integer,Binary,SubsetMate,IntegerMate,BinaryMate,RealMate}SelectionConfiguration.sample_xconfig,
     pybrops/breed/prot/sel/SelectionProtocol nmating / nprogeny setters vs cfg/SelectionConfiguration's,
     pybrops/core/util/array.py: triuix / triudix / xmapix,
     pybrops/breed/prot/sel/{Subset,Real,Integer,Binary,SubsetMate}SelectionProtocol.select
@@ -179,6 +179,29 @@ Definition old_cfg_integer_mate (ncross nparent : nat) (decn : list Z) (xmap : l
     end
   else None.
 
+(** BinaryMateSelectionConfiguration: tiled_choice over the repeated cross indices, rng.shuffle, lookup - the very program the
+    integer-mate configuration had before its repair.  No setter restricts the vector (the mixin's setter only asks for an
+    ndarray); the protocols hand it 0/1 vectors, for which the repeated options are the marked crosses, each once *)
+Definition cfg_binary_mate := old_cfg_integer_mate.
+(** RealMateSelectionConfiguration:
+      out = stochastic_universal_sampling(arange(n), decn, (ncross,)); rng.shuffle(out); xconfig = xmap[out,:] *)
+Definition cfg_real_mate_f (ncross nparent : nat) (decn : list float) (xmap : list (list Z)) (order : list nat) (off : float)
+    (perm perm2 : list nat) : option (list (list Z)) :=
+  if shape_ok ncross nparent && xmap_ok nparent xmap then
+    match sus_f decn order ncross off perm with
+    | None => None
+    | Some sel => if Nat.eqb (length perm2) ncross then xmap_rows xmap (permute 0%Z perm2 (zs sel)) else None
+    end
+  else None.
+Definition cfg_real_mate_q (ncross nparent : nat) (decn : list Q) (xmap : list (list Z)) (order : list nat) (off : Q)
+    (perm perm2 : list nat) : option (list (list Z)) :=
+  if shape_ok ncross nparent && xmap_ok nparent xmap then
+    match sus_q decn order ncross off perm with
+    | None => None
+    | Some sel => if Nat.eqb (length perm2) ncross then xmap_rows xmap (permute 0%Z perm2 (zs sel)) else None
+    end
+  else None.
+
 (** * 6. cross-map index generators (core/util/array.py) *)
 (** [tri_rec strict n k1 st]: the recursion with k1+1 positions still to fill and lower bound [st]
     (st = l[-1]+1 for triudix, l[-1] for triuix) *)
@@ -282,6 +305,44 @@ Definition proto_args_ok (ncross nparent : nat) (nmating nprogeny : matpar) : bo
 (** the constructor of a selection configuration accepts them *)
 Definition cfg_args_ok (ncross nparent : nat) (nmating nprogeny : matpar) : bool :=
   shape_ok ncross nparent && matpar_cfg_ok ncross nmating && matpar_cfg_ok ncross nprogeny.
+
+(** * 11. UsefulnessCriterionIntegerSelection.problem (UsefulnessCriterionSelection.py l.998-1000): bounds of the decision space,
+      one entry per candidate cross of the map:
+        decn_space_lower = numpy.repeat(0, len(xmap))
+        decn_space_upper = numpy.repeat(self.ncross * self.nparent * self.nmating, len(xmap))
+        decn_space = numpy.stack([decn_space_lower, decn_space_upper])
+      self.nmating is the protocol's ARRAY (one entry per cross); numpy.repeat of an array repeats EVERY element len(xmap)
+      times, numpy.stack raises ValueError unless both rows have the same length (finding C07-uc-integer-bounds-shape) *)
+Definition np_repeat_arr (a : list Z) (n : nat) : list Z := flat_map (fun v => repeat v n) a.
+Definition uc_int_bounds (ncross nparent : nat) (nmating : list Z) (nxmap : nat) : option (list Z * list Z) :=
+  let lower := repeat 0%Z nxmap in
+  let upper := np_repeat_arr (map (fun m => Z.of_nat ncross * Z.of_nat nparent * m)%Z nmating) nxmap in
+  if Nat.eqb (length lower) (length upper) then Some (lower, upper) else None.
+Definition is_none {A} (o : option A) : bool := match o with None => true | Some _ => false end.
+
+(** * 12. object lifecycle of a configuration: the fields a sampling reads, the operations that change them.
+      The setters store their argument (no derived value is kept), an in-place write into the decision vector changes the
+      same field, copy / deepcopy carry the fields over; sample_xconfig reads ncross, nparent, xconfig_decn (and the cross map)
+      at the call and writes xconfig only. *)
+Record cfg_state := { st_nc : nat; st_np : nat; st_decn : list Z; st_xmap : list (list Z) }.
+Inductive cfg_op :=
+| OpSetDecn (d : list Z) | OpMutateDecn (d : list Z) | OpSetShape (nc np : nat) | OpSetXmap (x : list (list Z))
+| OpCopy | OpDeepCopy | OpSetRng | OpSample.
+Definition apply_op (s : cfg_state) (o : cfg_op) : cfg_state :=
+  match o with
+  | OpSetDecn d | OpMutateDecn d => {| st_nc := st_nc s; st_np := st_np s; st_decn := d; st_xmap := st_xmap s |}
+  | OpSetShape nc np => {| st_nc := nc; st_np := np; st_decn := st_decn s; st_xmap := st_xmap s |}
+  | OpSetXmap x => {| st_nc := st_nc s; st_np := st_np s; st_decn := st_decn s; st_xmap := x |}
+  | OpCopy | OpDeepCopy | OpSetRng | OpSample => s
+  end.
+Definition session (s0 : cfg_state) (ops : list cfg_op) : cfg_state := fold_left apply_op ops s0.
+(** the samplings of the integer-vector classes as functions of the state at the call *)
+Definition sample_subset (s : cfg_state) := cfg_subset (st_nc s) (st_np s) (st_decn s).
+Definition sample_binary (s : cfg_state) := cfg_binary (st_nc s) (st_np s) (st_decn s).
+Definition sample_integer (s : cfg_state) := cfg_integer (st_nc s) (st_np s) (st_decn s).
+Definition sample_mate (s : cfg_state) := cfg_mate (st_nc s) (st_np s) (st_decn s) (st_xmap s).
+Definition sample_integer_mate (s : cfg_state) := cfg_integer_mate (st_nc s) (st_np s) (st_decn s) (st_xmap s).
+Definition sample_binary_mate (s : cfg_state) := cfg_binary_mate (st_nc s) (st_np s) (st_decn s) (st_xmap s).
 
 (** * comparison helpers for the correspondence shards *)
 Definition natll_eqb := list_eqb natl_eqb.
